@@ -51,6 +51,9 @@ pub fn mk_lifecycle(p: &Value) -> Arc<Mk> {
                         if k == "mem_ext" {
                             *m.0.ext_tx.lock().unwrap() = Some(ext.clone());
                         }
+                        if k == "mem_drop" {
+                            m.0.drop_sender.store(true, std::sync::atomic::Ordering::SeqCst);
+                        }
                         m.put("k", "txt", "v1");
                         C::M(AssetCache::with_source(m.clone()), m)
                     }
@@ -71,6 +74,10 @@ pub fn mk_lifecycle(p: &Value) -> Arc<Mk> {
                             std::fs::write(&p, "v2").unwrap();
                             notify::stub_inject(cyc, notify::Event { kind: notify::EventKind::Modify(notify::ModifyKind::Data), paths: vec![p] });
                         }
+                        ("drop_sender", C::M(_, _)) => {
+                            // the source's watcher goes away while the cache lives
+                            *ext.lock().unwrap() = None;
+                        }
                         ("quiesce", _) => {
                             ds::quiesce();
                             let s = state_tag(&name);
@@ -79,18 +86,33 @@ pub fn mk_lifecycle(p: &Value) -> Arc<Mk> {
                         _ => {}
                     }
                 }
-                match c {
-                    C::M(c, _m) => drop(c),
-                    C::F(c, _) => drop(c),
-                }
+                let survivor = match c {
+                    C::M(c, m) => {
+                        drop(c);
+                        Some(m)
+                    }
+                    C::F(c, _) => {
+                        drop(c);
+                        None
+                    }
+                };
                 ds::quiesce();
                 ds::log(format!("after-drop {name} {}", state_tag(&name)));
+                // "sleeps for good": whatever can still send events must not wake the reloader up
+                let steps = ds::thread_steps(&name);
+                if let Some(m) = &survivor {
+                    m.ev(OwnedDirEntry::File("k".into(), "txt".into()));
+                    ds::quiesce();
+                    ds::log(format!("late-event {name} woke={}", ds::thread_steps(&name) - steps));
+                }
+                drop(survivor);
                 if kind == "fs" {
                     // a later filesystem event is what lets the watcher notice the reloader is gone
                     let p = tmp_root().join("k.txt");
                     notify::stub_inject(cyc, notify::Event { kind: notify::EventKind::Modify(notify::ModifyKind::Data), paths: vec![p] });
                     ds::quiesce();
                     ds::log(format!("after-late-event {name} {}", state_tag(&name)));
+                    ds::log(format!("late-event {name} woke={}", ds::thread_steps(&name) - steps));
                 }
                 drop(ext);
             }
@@ -100,8 +122,11 @@ pub fn mk_lifecycle(p: &Value) -> Arc<Mk> {
 
 pub fn judge_lifecycle(r: &ds::RunResult) -> Option<(String, String)> {
     for l in &r.log {
-        if l.starts_with("idle ") && !(l.contains("blocked:SelectReady")) {
+        if l.starts_with("idle ") && !(l.contains("blocked:SelectReady") || l.ends_with("finished")) {
             return Some(("busy-when-idle".into(), format!("reloader is not blocked while nothing changes: {l}")));
+        }
+        if l.starts_with("late-event ") && !l.ends_with("woke=0") {
+            return Some(("woken-after-drop".into(), format!("the reloader of a dropped cache still reacts to events (it does not sleep for good): {l}")));
         }
         if l.starts_with("after-drop ") && !(l.ends_with("finished") || l.contains("blocked:")) {
             return Some(("alive-after-drop".into(), format!("reloader neither exited nor sleeps after its cache was dropped: {l}")));
@@ -113,9 +138,9 @@ pub fn judge_lifecycle(r: &ds::RunResult) -> Option<(String, String)> {
 pub fn lifecycle(args: &Args) -> SubResult {
     let mut res = SubResult::new("C15", "c15_lifecycle");
     let thorough = args.thorough();
-    res.bound = format!("1..{} create/use/drop cycles x source kinds {{sender inside source, sender held externally, FileSystem over notify stub}} x every sequence of <= {} ops from {{load, hot_reload, event, quiesce}} then drop; preemption bound 1 (+ both Select::ready choices)", if thorough { 3 } else { 2 }, if thorough { 3 } else { 2 });
+    res.bound = format!("1..{} create/use/drop cycles x source kinds {{sender inside source, sender held externally (and dropped mid-way), sender dropped at configuration, FileSystem over notify stub}} x every sequence of <= {} ops from {{load, hot_reload, event, quiesce, drop_sender}} then drop, then a late event through whatever sender survives; preemption bound 1 (+ both Select::ready choices)", if thorough { 3 } else { 2 }, if thorough { 3 } else { 2 });
     res.rule = "every op sequence x every schedule within the bound; violation = spin verdict (sole enabled thread, recurring world) or reloader enabled when it must be idle".into();
-    let alphabet = ["load", "hot_reload", "event", "quiesce"];
+    let alphabet = ["load", "hot_reload", "event", "quiesce", "drop_sender"];
     let maxlen = if thorough { 3 } else { 2 };
     let mut seqs: Vec<Vec<&str>> = vec![vec![]];
     let mut frontier: Vec<Vec<&str>> = vec![vec![]];
@@ -132,8 +157,11 @@ pub fn lifecycle(args: &Args) -> SubResult {
         frontier = next;
     }
     let mut cases = vec![];
-    for kind in ["mem_in", "mem_ext", "fs"] {
+    for kind in ["mem_in", "mem_ext", "mem_drop", "fs"] {
         for s in &seqs {
+            if s.contains(&"drop_sender") && kind != "mem_ext" {
+                continue;
+            }
             for cycles in 1..=(if thorough { 3 } else { 2 }) {
                 if cycles > 1 && s.len() > 2 {
                     continue;
